@@ -6,7 +6,7 @@
    Latin-1 targets, for both settings of the out-of-range flag.                          *)
 From Coq Require Import NArith ZArith List Bool.
 From ST Require Import Base.Outcome Base.Units Utf.Spec Utf.Tokens Utf.Model Utf.ProofsC01 Utf.ApiCoverage.
-From ST Require Gen.Leaf Utf.LoopBridge Utf.LoopBridgeExtract Utf.LoopBridgeWrite.
+From ST Require Gen.Leaf Utf.LoopBridge Utf.LoopBridgeExtract Utf.LoopBridgeWrite Utf.LoopBridgeConvertL1.
 Import ListNotations.
 Local Open Scope N_scope.
 
@@ -116,3 +116,16 @@ Proof.
   exact (fun n H => conj (ST.Utf.LoopBridgeWrite.write_utf8_matches_source n H) (ST.Utf.LoopBridgeWrite.write_utf16_matches_source n H)).
 Qed.
 Print Assumptions encoders_match_source.
+
+(* ---- tie by translation, a whole conversion pass: utf8_convert_from_latin_1(dest, astr, size), the second pass of
+   ST::latin_1_to_utf8 and ST::string::from_latin_1, is translated from the CURRENT headers (dest is a write-only cursor;
+   the loop carries the list of bytes stored so far).  For inputs of any length, with enough fuel, it stores exactly the
+   bytes the model pass of every theorem above pushes, given room for them; its first pass utf8_measure_from_latin_1 is
+   tied the same way (C03: measuring_loops_match_source) ---- *)
+Theorem latin_1_conversion_pass_matches_source : forall l fuel, all_lt 256 l = true -> (length l < fuel)%nat ->
+  exists ws, ST.Gen.Leaf.src_utf8_convert_from_latin_1 fuel (ST.Utf.LoopBridge.arr8s l) (Z.of_nat (length l)) = Some ws /\
+    forall d : dst, (length ws <= fst d)%nat ->
+      utf8_convert_from_latin_1 d l =
+        Ok (CSuccess, ((fst d - length ws)%nat, rev (map ST.Utf.LoopBridgeWrite.byte_of ws) ++ snd d)).
+Proof. exact ST.Utf.LoopBridgeConvertL1.utf8_convert_from_latin_1_matches_source. Qed.
+Print Assumptions latin_1_conversion_pass_matches_source.
